@@ -3,6 +3,7 @@ package checks
 import (
 	"encoding/json"
 	"fmt"
+	"regexp"
 	"strings"
 	"verifharness/sut"
 
@@ -332,6 +333,13 @@ func c14BadBytes(c *fw.Case) {
 		for ovk, ov := range values {
 			if ovk != vk {
 				bads = append(bads, bad{"value-member-of-other-action:" + ovk, map[string]interface{}{"action": action, ovk: ov}})
+			}
+		}
+		// the value under a name that merely resembles the action's value member (another naming style, singular / plural, letter case)
+		snake := strings.ToLower(regexp.MustCompile("([a-z])([A-Z])").ReplaceAllString(vk, "${1}_${2}"))
+		for _, alt := range []string{snake, "public_keys", "service_endpoints", "serviceEndpoints", strings.TrimSuffix(vk, "s"), vk + "s", strings.ToUpper(vk[:1]) + vk[1:], strings.ToUpper(vk), "value", " " + vk} {
+			if alt != vk {
+				bads = append(bads, bad{"value-member-under-a-similar-name:" + alt, map[string]interface{}{"action": action, alt: values[vk]}})
 			}
 		}
 		for _, b := range bads {
